@@ -211,3 +211,15 @@ for _name, _op in (('add', '+'), ('sub', '-')):
           # the raw encoding of the result is the sum / difference of the raw encodings modulo 2**w, in the format of self
           ensures=['result.v == (old(self.v) %s old(b.v)) %% (1 << old(%s))' % (_op, _FXW('self')),
                    'result.sw == old(self.sw) and result.iw == old(self.iw) and result.fw == old(self.fw)'] + _NEW + _FX_KEPT)
+
+# FixedPoint.mult: the raw encoding of the result is the product of the two sign-extended raw encodings, shifted down by the
+# fraction width and reduced modulo 2**w.  `sxt(v, w, nw)` is the abstract result of helper.signExtend (a function of its
+# arguments; the function itself is proved in scalar mode against the two's complement spec, contracts/helpers.py), and the
+# product is an opaque multiplication: the proof shows which operands reach it, not facts of non-linear arithmetic.
+callee('f:signExtend', args=['v', 'w', 'nw'], requires=['w >= 1', 'nw >= w'], returns=True, ensures=['result == sxt(v, w, nw)'])
+hfunc(H, 'FixedPoint.mult', ['self', 'b'], props=('C12',), refs=['self', 'b'], uses=['new:FixedPoint/4', 'f:signExtend'], uf_mod=True, opaque_mul=True,
+      requires=['isinstance(b, FixedPoint)', _FMT_OK('self.sw', 'self.iw', 'self.fw'), 'self.__alloc and b.__alloc'],
+      modifies=_FX_MOD + ['f:#alloc'],
+      ensures=['result.v == ((sxt(old(self.v), old(%s), old(%s) * 2) * sxt(old(b.v), old(%s), old(%s) * 2)) >> old(self.fw)) %% (1 << old(%s))'
+               % ((_FXW('self'),) * 5),
+               'result.sw == old(self.sw) and result.iw == old(self.iw) and result.fw == old(self.fw)'] + _NEW + _FX_KEPT)
